@@ -4,14 +4,19 @@ from .. import gen
 from ..gen import Opt, schema_lines, LIST, MULTI, TITLE, NOCASE, dbits
 
 THEOREMS = ["C14_parse_callback", "C14_parse_callback_str", "C14_stored_value", "C14_valid_after_store", "C14_func_args",
-            "C14_failure_stops", "C14_preset", "C14_log_monotone", "C14_step_monotone", "C14_items_in_order"]
+            "C14_failure_stops", "C14_preset", "C14_log_monotone", "C14_step_monotone", "C14_items_in_order",
+            "C01_assign_general", "setopt_int_cb", "C14_assign_trace"]
 PARTIAL = ("Proved for an arbitrary callback oracle: the parse callback gets exactly the decoded token and its result is what is stored (or the value is "
            "refused); right after a stored value the next invocation is the option's validation callback with a snapshot containing that value, and a "
            "non-zero verdict rejects the parse; function callbacks receive the collected arguments in order; after a rejection no later token changes "
            "anything (C14_failure_stops); the pre-set validator runs first and can veto or rewrite; the invocation log and the diagnostics only grow, in "
            "token order, whatever happens later (C14_log_monotone: one lemma per parser state), so the log of a text is the concatenation of what its "
-           "pieces caused (C14_items_in_order). Not proved: a closed formula trace = specTrace(items); the tie compares complete invocation logs for "
-           "every failing index k.")
+           "pieces caused (C14_items_in_order). And for one whole item in closed form (C14_assign_trace, via C01_assign_general: the three tokens of "
+           "an assignment are cfg_setopt + validation + annotation on exactly the selected option): the parse callback is invoked exactly once, first, with "
+           "exactly the token text; a refusal rejects the parse with nothing stored and nothing else invoked; otherwise the value it produced is stored and the "
+           "validation callback runs next seeing exactly that value, and its verdict decides between an item boundary with the option holding that value and "
+           "rejection - the log is the old log plus these one or two invocations in this order. Not proved: the same closed formula for lists, calls and whole "
+           "item lists (the pieces compose by C14_items_in_order); the tie compares complete invocation logs for every failing index k.")
 VARIANT = "asan"
 RULE = ("random schemas in which any subset of options carries a value-parsing, validation, pre-set validation, function or release "
         "callback (declared, or registered afterwards by schema path) x grammar-derived texts x 'the k-th callback invocation fails' "
